@@ -181,9 +181,6 @@ func c18client(intervalS int64, mode0 string, k int, delta time.Duration) func()
 			conn.close()
 		}
 		var t1 time.Duration
-		if mode == "hook-fails-reconnect" {
-			// handled before the first Connect below
-		}
 		if mode == "drop-refused-resume" {
 			vrt.Sleep(time.Duration(k)*interval + delta)
 			s.w.Listeners["example.org:5222"].Accept = func(int, *vnet.Conn) (func(), error) { return nil, vnet.ErrRefused }
@@ -194,6 +191,32 @@ func c18client(intervalS int64, mode0 string, k int, delta time.Duration) func()
 			vrt.Sleep(3 * interval)
 			vrt.WaitIdle()
 			return // the verdict function reports a panic
+		}
+		if mode == "drop-resume-from-handler" {
+			// the reconnection is made from inside the Disconnected handler, as StreamManager does: the receive
+			// loop of the lost session is still unwinding when the loops of the new session start
+			resumed := false
+			var rerr error
+			prev := s.cl.Handler
+			s.cl.SetHandler(func(e Event) error {
+				if prev != nil {
+					prev(e)
+				}
+				if e.State.state == StateDisconnected && !resumed {
+					resumed = true
+					rerr = s.cl.Resume()
+				}
+				return nil
+			})
+			vrt.Sleep(time.Duration(k)*interval + delta)
+			conn.close()
+			vrt.WaitIdle()
+			end = vrt.VNow()
+			if !resumed || rerr != nil {
+				vrt.Fail("C18|harness|reconnect", "Resume from the handler: called=%v err=%v", resumed, rerr)
+				return
+			}
+			t1 = vrt.VNow()
 		}
 		if mode == "disconnect-reconnect" || mode == "server-close-reconnect" || mode == "drop-resume" {
 			// the session ends through the stream-close handshake, then the same client connects again
@@ -373,6 +396,7 @@ func TestVerifC18(t *testing.T) {
 			scs = append(scs, hx.Scenario{Name: fmt.Sprintf("client/interval=%ds/disconnect-reconnect%+d", ivs, d), Opt: vrt.Options{Bound: c18rb, Horizon: 100000}, Body: c18client(ivs, "disconnect-reconnect", 1, d), Verdict: c18verdict})
 			scs = append(scs, hx.Scenario{Name: fmt.Sprintf("client/interval=%ds/server-close-reconnect%+d", ivs, d), Opt: vrt.Options{Bound: 1, Horizon: 100000}, Body: c18client(ivs, "server-close-reconnect", 1, d), Verdict: c18verdict})
 			scs = append(scs, hx.Scenario{Name: fmt.Sprintf("client/interval=%ds/drop-resume%+d", ivs, d), Opt: vrt.Options{Bound: 1, Horizon: 100000}, Body: c18client(ivs, "drop-resume", 1, d), Verdict: c18verdict})
+			scs = append(scs, hx.Scenario{Name: fmt.Sprintf("client/interval=%ds/drop-resume-from-handler%+d", ivs, d), Opt: vrt.Options{Bound: 1, Horizon: 100000}, Body: c18client(ivs, "drop-resume-from-handler", 1, d), Verdict: c18verdict})
 		}
 		for _, d := range []time.Duration{-time.Millisecond, 0} {
 			scs = append(scs, hx.Scenario{Name: fmt.Sprintf("client/interval=%ds/drop-refused-resume%+d", ivs, d), Opt: vrt.Options{Bound: c18rb + 1, Horizon: 100000, TouchOn: []string{"conn"}}, Body: c18client(ivs, "drop-refused-resume", 1, d), Verdict: c18verdict})
